@@ -251,87 +251,59 @@ func ruleOrder(c *Ctx) *RuleResult {
 		}
 	}
 	// ---- the sort adapters: Less(i,j) == key(items[i]) < key(items[j])
-	for _, less := range allFuncs(c.SLib) {
-		if less.Name() != "Less" || less.Signature.Recv() == nil {
-			continue
-		}
-		pt, ok := less.Signature.Recv().Type().Underlying().(*types.Pointer)
-		if !ok {
-			continue
-		}
-		st, ok := pt.Elem().Underlying().(*types.Struct)
-		if !ok {
-			continue
-		}
-		hasNode := false
-		for i := 0; i < st.NumFields(); i++ {
-			if c.isASTNode(st.Field(i).Type()) {
-				hasNode = true
-			}
-		}
-		if !hasNode {
-			continue
-		}
+	for _, ad := range c.lessAdapters() {
+		less := ad.less
 		r.Instances++
 		key := "order|" + fname(less)
+		if ad.opaque {
+			r.undecided(key, c.pos(less.Pos()), fname(less), "the adapter compares through a function value that is not one of a fixed set of library functions")
+			continue
+		}
 		var bad []string
-		decidedKinds := 0
-		for _, kd := range kinds {
-			kindOK := true
-			for _, ranks := range weakOrders(2) {
-				for _, ij := range [][2]int{{0, 1}, {1, 0}} {
-					x := c.newExec(UJSON, fmt.Sprintf("%s(%d,%d) with %s keys ranked %v", fname(less), ij[0], ij[1], kd.name, ranks))
-					x.hyp = keyHyp(kd.a)
-					x.hypFns[c.A.Exec] = true
-					x.ord = rankOrd(ranks, "k")
-					h := newHeap()
-					items := h.alloc(&aobj{kind: 'l', elems: []AV{
-						{k: 'I', atoms: AObjN, prov: "e0"},
-						{k: 'I', atoms: AObjN, prov: "e1"},
-					}})
-					o := &aobj{kind: 's'}
-					for i := 0; i < st.NumFields(); i++ {
-						ft := st.Field(i).Type()
-						switch {
-						case isBoolType(ft):
-							o.fields = append(o.fields, AV{k: 'B', tri: 2})
-						case c.isASTNode(ft):
-							o.fields = append(o.fields, AV{k: 'O', what: "node expref-body"})
-						default:
-							if _, isSl := ft.Underlying().(*types.Slice); isSl {
-								o.fields = append(o.fields, AV{k: 'L', tri: 2, obj: items, elemK: 'I', prov: "items"})
-							} else {
-								o.fields = append(o.fields, AV{k: 'P', tri: 2, what: "interp"})
+		accepted := 0 // (variant, kind) pairs that reach an unlatched return
+		for _, choice := range ad.variants() {
+			for _, kd := range kinds {
+				kindOK := true
+				for _, ranks := range weakOrders(2) {
+					for _, ij := range [][2]int{{0, 1}, {1, 0}} {
+						x := c.newExec(UJSON, fmt.Sprintf("%s(%d,%d) with %s keys ranked %v", ad.label(choice), ij[0], ij[1], kd.name, ranks))
+						x.hyp = keyHyp(kd.a)
+						x.hypFns[c.A.Exec] = true
+						x.ord = rankOrd(ranks, "k")
+						h := newHeap()
+						items := h.alloc(&aobj{kind: 'l', elems: []AV{
+							{k: 'I', atoms: AObjN, prov: "e0"},
+							{k: 'I', atoms: AObjN, prov: "e1"},
+						}})
+						id := ad.object(c, h, AV{k: 'L', tri: 2, obj: items, elemK: 'I', prov: "items"}, choice)
+						want := ranks[ij[0]] < ranks[ij[1]]
+						n := 0
+						x.run(less, []AV{{k: 'P', tri: 2, obj: id}, {k: 'N', n: int64(ij[0]), nk: true, nn: true}, {k: 'N', n: int64(ij[1]), nk: true, nn: true}}, h, pathInfo{}, func(rets []AV, h2 *Heap, p pathInfo, fin *frame) {
+							if len(rets) != 1 || rets[0].k != 'B' {
+								return
 							}
-						}
-					}
-					id := h.alloc(o)
-					want := ranks[ij[0]] < ranks[ij[1]]
-					n := 0
-					x.run(less, []AV{{k: 'P', tri: 2, obj: id}, {k: 'N', n: int64(ij[0]), nk: true, nn: true}, {k: 'N', n: int64(ij[1]), nk: true, nn: true}}, h, pathInfo{}, func(rets []AV, h2 *Heap, p pathInfo, fin *frame) {
-						if len(rets) != 1 || rets[0].k != 'B' {
-							return
-						}
-						// a latched failure: the key was not of this adapter's kind
-						for _, f := range h2.objs[id].fields {
-							if f.k == 'B' && f.tri&1 != 0 {
+							// a latched failure: the key was not of this adapter's kind
+							if ad.latched(h2, id) {
 								kindOK = false
 								return
 							}
+							n++
+							got := rets[0].tri
+							if (want && got != 1) || (!want && got != 2) {
+								bad = append(bad, fmt.Sprintf("%s(%d,%d) with %s keys ranked %v is %s, want %v", ad.label(choice), ij[0], ij[1], kd.name, ranks, triStr(got), want))
+							}
+						})
+						if n == 0 {
+							kindOK = false
 						}
-						n++
-						got := rets[0].tri
-						if (want && got != 1) || (!want && got != 2) {
-							bad = append(bad, fmt.Sprintf("Less(%d,%d) with %s keys ranked %v is %s, want %v", ij[0], ij[1], kd.name, ranks, triStr(got), want))
+						if x.trunc || len(x.gaps) > 0 {
+							bad = append(bad, fmt.Sprintf("%s: not decided (unmodelled construct)", x.label))
 						}
-					})
-					if n == 0 {
-						kindOK = false
 					}
 				}
-			}
-			if kindOK {
-				decidedKinds++
+				if kindOK {
+					accepted++
+				}
 			}
 		}
 		switch {
@@ -340,8 +312,8 @@ func ruleOrder(c *Ctx) *RuleResult {
 				bad = append(bad[:4], "…")
 			}
 			r.viol(key, c.pos(less.Pos()), fname(less), "Less is not the strict ascending order of the keys (sort_by must be ascending and stable): "+strings.Join(bad, "; "))
-		case decidedKinds != 1:
-			r.undecided(key, c.pos(less.Pos()), fname(less), fmt.Sprintf("%d key kinds reach an unlatched return, expected exactly one", decidedKinds))
+		case accepted != len(ad.variants()):
+			r.undecided(key, c.pos(less.Pos()), fname(less), fmt.Sprintf("%d (comparison, key kind) combinations reach an unlatched return, expected one per comparison (%d)", accepted, len(ad.variants())))
 		default:
 			r.ok(key, c.pos(less.Pos()), fname(less), "Less(i,j) == key(items[i]) < key(items[j]) for the three orderings of two keys and both argument orders")
 		}
@@ -362,4 +334,147 @@ func triStr(t uint8) string {
 		return "false"
 	}
 	return "either"
+}
+
+// lessAdapter: a sort adapter of the library whose Less evaluates an
+// expression reference (it has an ASTNode field).
+type lessAdapter struct {
+	less     *ssa.Function
+	named    *types.Named
+	st       *types.Struct
+	latch    int  // index of the failure latch field (bool or error), -1 if none
+	latchErr bool // the latch is error-typed
+	fnField  int  // index of a func-typed field (-1 if none)
+	cands    []*ssa.Function // functions stored into fnField anywhere in the library
+	opaque   bool // a closure with free variables, or more than one func field: not decided
+}
+
+func (c *Ctx) lessAdapters() []*lessAdapter {
+	var out []*lessAdapter
+	for _, less := range allFuncs(c.SLib) {
+		if less.Name() != "Less" || less.Signature.Recv() == nil {
+			continue
+		}
+		pt, ok := less.Signature.Recv().Type().Underlying().(*types.Pointer)
+		if !ok {
+			continue
+		}
+		st, ok := pt.Elem().Underlying().(*types.Struct)
+		if !ok {
+			continue
+		}
+		named, _ := pt.Elem().(*types.Named)
+		ad := &lessAdapter{less: less, named: named, st: st, latch: -1, fnField: -1}
+		hasNode := false
+		for i := 0; i < st.NumFields(); i++ {
+			ft := st.Field(i).Type()
+			switch {
+			case c.isASTNode(ft):
+				hasNode = true
+			case isBoolType(ft) || isErrorType(ft):
+				ad.latch = i
+				ad.latchErr = isErrorType(ft)
+			default:
+				if _, isSig := ft.Underlying().(*types.Signature); isSig {
+					if ad.fnField >= 0 {
+						ad.opaque = true
+					}
+					ad.fnField = i
+				}
+			}
+		}
+		if !hasNode {
+			continue
+		}
+		if ad.fnField >= 0 {
+			seen := map[*ssa.Function]bool{}
+			for _, fn := range allFuncs(c.SLib) {
+				for _, b := range fn.Blocks {
+					for _, in := range b.Instrs {
+						st2, ok := in.(*ssa.Store)
+						if !ok {
+							continue
+						}
+						fa, ok := st2.Addr.(*ssa.FieldAddr)
+						if !ok || fa.Field != ad.fnField {
+							continue
+						}
+						if p2, ok := fa.X.Type().Underlying().(*types.Pointer); !ok || !types.Identical(p2.Elem(), pt.Elem()) {
+							continue
+						}
+						switch v := st2.Val.(type) {
+						case *ssa.Function:
+							if !seen[v] {
+								seen[v] = true
+								ad.cands = append(ad.cands, v)
+							}
+						case *ssa.MakeClosure:
+							ad.opaque = true
+						default:
+							if k, ok := v.(*ssa.Const); !ok || !k.IsNil() {
+								ad.opaque = true
+							}
+						}
+					}
+				}
+			}
+			if len(ad.cands) == 0 {
+				ad.opaque = true
+			}
+		}
+		out = append(out, ad)
+	}
+	return out
+}
+
+// variants: one per candidate of the func field (a single nil variant when there is none).
+func (ad *lessAdapter) variants() []*ssa.Function {
+	if ad.fnField < 0 {
+		return []*ssa.Function{nil}
+	}
+	return ad.cands
+}
+
+// object builds the adapter on the heap: items is the items slice value.
+func (ad *lessAdapter) object(c *Ctx, h *Heap, items AV, choice *ssa.Function) int {
+	o := &aobj{kind: 's'}
+	for i := 0; i < ad.st.NumFields(); i++ {
+		ft := ad.st.Field(i).Type()
+		switch {
+		case i == ad.latch && ad.latchErr:
+			o.fields = append(o.fields, AV{k: 'E', tri: 1})
+		case i == ad.latch:
+			o.fields = append(o.fields, AV{k: 'B', tri: 2})
+		case i == ad.fnField && choice != nil:
+			o.fields = append(o.fields, AV{k: 'U', fn: choice, what: choice.Name()})
+		case c.isASTNode(ft):
+			o.fields = append(o.fields, AV{k: 'O', what: "node expref-body"})
+		default:
+			if _, isSl := ft.Underlying().(*types.Slice); isSl {
+				o.fields = append(o.fields, items)
+			} else {
+				o.fields = append(o.fields, AV{k: 'P', tri: 2, what: "interp"})
+			}
+		}
+	}
+	return h.alloc(o)
+}
+
+// latched: may the failure latch be set in heap h?
+func (ad *lessAdapter) latched(h *Heap, id int) bool {
+	if ad.latch < 0 {
+		return false
+	}
+	f := h.objs[id].fields[ad.latch]
+	if ad.latchErr {
+		return f.k != 'E' || f.tri&2 != 0
+	}
+	return f.tri&1 != 0
+}
+
+func (ad *lessAdapter) label(choice *ssa.Function) string {
+	if choice == nil {
+		return fname(ad.less)
+	}
+	return fname(ad.less) + "[" + choice.Name() + "]"
 }
